@@ -46,6 +46,10 @@ def cases(tier):
             hs = (1, 2)
         for h in hs:
             for p in vp.programs(base, h, quick=(quick or h == 3), require_inplace=True):
+                if any(".copy()" in ln for ln in p):
+                    # Tensor.copy() is documented to return a tensor DETACHED from the graph (C17): it is not a function of the
+                    # functional twin, so programs reading through a copy are outside this grammar
+                    continue
                 progs += with_consumers(p, quick)
         if not quick:
             progs = progs[:: 1]
@@ -113,6 +117,10 @@ def twin_run(S, lines, cut=None):
             for n in names:
                 if n in A and isinstance(A[n], np.ndarray):
                     f[n] = bool(np.shares_memory(tg, A[n]))
+                    if tg.size == 0 and vp.ultimate(A[n]) is vp.ultimate(tg):
+                        # an update through an EMPTY view overwrites nothing, but it is an in-place statement on the view family:
+                        # the library gives the family a new version (np.shares_memory is False for empty arrays)
+                        f[n] = True
         fam.append(f)
         if cut is not None and cut[1] == i:
             before = terms_of(A[cut[0]])
@@ -313,7 +321,10 @@ def twin(init, cut=None):
             if n in A and not isinstance(A[n], np.ndarray): A[n] = np.array(A[n])
         if cut is not None and cut[1] == i: A[cut[0]][...] = cut[2].reshape(A[cut[0]].shape)
         ip = ("[" in ln.split("=")[0]) or any(o in ln for o in (" *= ", " += ", " -= ", " /= ", " **= ")) or "out=" in ln
-        f = {n: bool(ip and np.shares_memory(A[tgt(ln)], A[n])) for n in NAMES + ("y0", "yv", "y2") if n in A and isinstance(A[n], np.ndarray)}
+        def ult(a):
+            while a.base is not None: a = a.base
+            return a
+        f = {n: bool(ip and (np.shares_memory(A[tgt(ln)], A[n]) or (A[tgt(ln)].size == 0 and ult(A[n]) is ult(A[tgt(ln)])))) for n in NAMES + ("y0", "yv", "y2") if n in A and isinstance(A[n], np.ndarray)}
         if ".shape =" in ln:
             tg_ = A[tgt(ln)]; ub = tg_
             while ub.base is not None: ub = ub.base
